@@ -240,23 +240,33 @@ theorem checkOnce_signal (p : Prog) (src : Src) (ts : TS)
   | some m =>
     simp only []
     cases hce : (cleanupPhase ((bodyOf p).run src { ts with ctxCount := 0 }).ts).err with
-    | some e => cases e <;> simp [Err.isInvalid, Err.nest]
+    | some e =>
+      cases hr : ((bodyOf p).run src { ts with ctxCount := 0 }).res with
+      | ok v => cases e <;> simp [Err.isInvalid, Err.nest]
+      | error e0 => cases e <;> cases e0 <;> simp [Err.isInvalid, Err.nest]
     | none =>
       simp only []
       cases hr : ((bodyOf p).run src { ts with ctxCount := 0 }).res with
       | ok v => simp [Err.isInvalid]
       | error e => cases e <;> simp [Err.isInvalid]
 
-/-- a panic / `Fatal*` that ends the body is the test case's error unless a cleanup callback
-    panics afterwards (then the cleanup's panic is reported, as with Go's `recover`) -/
+/-- a panic / `Fatal*` that ends the body falsifies the test case, whatever the cleanup callbacks do
+    afterwards: a callback that fails replaces the error by its own failure, a callback that skips
+    (invalid data) cannot replace it -/
 theorem checkOnce_body_error (p : Prog) (src : Src) (ts : TS) (e : Err)
-    (hb : ((bodyOf p).run src { ts with ctxCount := 0 }).res = .error e) (he : e.isInvalid = false)
-    (hc : (cleanupPhase ((bodyOf p).run src { ts with ctxCount := 0 }).ts).err = none) :
+    (hb : ((bodyOf p).run src { ts with ctxCount := 0 }).res = .error e) (he : e.isInvalid = false) :
     ∃ e', (checkOnce p src ts).err = some e' ∧ e'.isInvalid = false := by
-  simp only [checkOnce_def, hb, hc]
-  cases (cleanupPhase ((bodyOf p).run src { ts with ctxCount := 0 }).ts).ts.failed with
-  | none => exact ⟨e, rfl, he⟩
-  | some m => cases e <;> simp [Err.isInvalid] at he ⊢
+  simp only [checkOnce_def, hb]
+  cases hc : (cleanupPhase ((bodyOf p).run src { ts with ctxCount := 0 }).ts).err with
+  | some ec =>
+    cases (cleanupPhase ((bodyOf p).run src { ts with ctxCount := 0 }).ts).ts.failed with
+    | none => cases ec <;> cases e <;> simp [Err.isInvalid, Err.nest] at he ⊢
+    | some m => cases ec <;> cases e <;> simp [Err.isInvalid, Err.nest] at he ⊢
+  | none =>
+    simp only []
+    cases (cleanupPhase ((bodyOf p).run src { ts with ctxCount := 0 }).ts).ts.failed with
+    | none => exact ⟨e, rfl, he⟩
+    | some m => cases e <;> simp [Err.isInvalid] at he ⊢
 
 /-- a falsified test case fails the enclosing test: whenever the generation loop ends with an
     error, the verdict is not "pass" (so `checkTB` calls `Errorf` and then `FailNow`) -/
